@@ -37,6 +37,32 @@ Fixpoint toy_trace (ops : list sx) (s : tstate) (acc : list sx) : list sx :=
   | op :: t => let '(s', o) := toy_apply s op in toy_trace t s' (Lx [o; sx_tstate s'] :: acc)
   end.
 
+(* flat memory histories: ops (0 nbits a) read | (1 nbits a v) write; results per op *)
+Fixpoint flat_trace (c : memcfg) (ops : list sx) (m : zmap) (acc : list sx) : list sx * zmap :=
+  match ops with
+  | [] => (rev acc, m)
+  | op :: t =>
+      if dz (dnth op 0) =? 0 then
+        flat_trace c t m (sx_res Zx (mem_read c m (dz (dnth op 1)) (dz (dnth op 2))) :: acc)
+      else
+        let '(m', e) := mem_write c m (dz (dnth op 1)) (dz (dnth op 2)) (dz (dnth op 3)) in
+        flat_trace c t m' (sx_opt sx_err e :: acc)
+  end.
+
+(* replacement policy histories: after every access (victim, repr) *)
+Fixpoint pol_trace (h : list Z) (p : pol) (acc : list sx) : list sx :=
+  match h with
+  | [] => rev acc
+  | i :: t => let p' := pol_access p i in pol_trace t p' (Lx [Zx (pol_victim p'); sx_zs (pol_repr p')] :: acc)
+  end.
+
+(* RISC-V display tables of a state *)
+Definition rv_tables (s : st) : sx :=
+  Lx [ sx_list (fun r => sx_repr4 (n_bit_repr 32 (rget s r))) (zrange_from 0 32);
+       sx_res (sx_list (fun av : Z * Z =>
+                 Lx [Zx (fst av); sx_str ([48; 120] ++ fmt_pad 16 8 (fst av)); sx_repr4 (n_bit_repr 32 (snd av))]))
+              (mem_repr rv_memcfg (ms_lower (ms s)) 32) ].
+
 Definition dispatch (req : sx) : sx :=
   let op := dz (dnth req 0) in
   if op =? 1 then
@@ -48,4 +74,14 @@ Definition dispatch (req : sx) : sx :=
     let w := dz (dnth req 1) in
     let i := toy_decode w in
     Lx [sx_tinstr i; Zx (toy_encode i); sx_str (tinstr_repr i); Zx (op_code_value i); Zx (address_section_value i)]
+  else if op =? 20 then sx_repr4 (n_bit_repr (dz (dnth req 1)) (dz (dnth req 2)))
+  else if op =? 21 then
+    let '(s', _) := single_run (Z.to_nat (dz (dnth req 2))) (dst (dnth req 1)) in rv_tables s'
+  else if op =? 30 then
+    let c := if dz (dnth req 1) =? 0 then rv_memcfg else toy_memcfg (dz (dnth req 2)) in
+    let '(rs, m) := flat_trace c (dl (dnth req 4)) (dpairs (dnth req 3)) [] in
+    Lx [Lx rs; sx_zmap_sorted m; sx_zs (mkeys m)]
+  else if op =? 40 then
+    let p := pol_init (dbool (dnth req 1)) (dz (dnth req 2)) in
+    Lx (Lx [Zx (pol_victim p); sx_zs (pol_repr p)] :: pol_trace (dzs (dnth req 3)) p [])
   else Lx [Zx (-1)].
